@@ -40,13 +40,14 @@ def harness_args(tier, seed):
 
 SPEC = {
     "id": "C09",
-    "gens": ["FmtTables", "ParseTables", "SyntaxTables", "LexTables"],
+    "gens": ["FmtTables", "ParseTables", "SyntaxTables", "LexTables", "LitFormatTables"],
     "lean_modules": ["RsslVerif.Thm.C09", "RsslVerif.Thm.C10", "RsslVerif.Lemmas.LiteralText"],
     "level_note": "roundtrip_xexpr_partial / roundtrip_stmt_partial / roundtrip_decl_partial / roundtrip_function_partial / "
                   "roundtrip_struct_partial: WF / WFS / WFVarDef / WFFn / WFStruct are decidable syntactic carve-outs "
                   "(notes/C09.md; after fix batch 2 they no longer exclude operators in template / sizeof arguments nor comma "
                   "expressions in attribute arguments and default values, and structs have base types); integer literal text is "
-                  "proved (literal_roundtrip_int), float literal text, enums, cbuffers, "
+                  "proved (literal_roundtrip_int), float literal text is C10's emit_value_exact (cited; after 265a080 without the "
+                  "read-back hypothesis on the shortest digits of a non-whole single), enums, cbuffers, "
                   "globals and template parameter lists are reached by the correspondence run only",
     "theorems": [T + n for n in [
         "binToks_lexes", "unTok_lexes", "tables_agree", "assoc_agrees", "ternary_level", "unary_tables_agree",
@@ -73,7 +74,13 @@ SPEC = {
         "RsslVerif.Thm.C10." + n for n in [
             "int_value_exact", "int_overflow_rejected", "int_rejected_only_when_too_large", "literalInt_radix",
             "token_numeric_dispatch", "float_parts_shape_as_modelled", "lex_float_nearest", "nearest64_correct",
-            "nearest_correct", "nearest_exact_on_representable"]],
+            "nearest_correct", "nearest_exact_on_representable",
+            # the printing half of the literal text (format_literal arm by arm, pinned on every run), cited since fix
+            # 265a080: the arm order of format_literal, the text of every finite float of every kind reads back as the
+            # same kind and bits, and the one single whose shortest digits round twice (0x15ae43fd) is printed with the
+            # digits of the double - the former witness emit_f32_double_rounding_witness is the positive statement now
+            "literal_tables_as_modelled", "emit_int_exact", "emit_value_exact", "emit_whole_value_exact",
+            "emit_infinity_exact", "emit_negative_exact", "emit_f32_double_rounding_repaired"]],
     "harness": "c09",
     "harness_args": harness_args,
     "nontrivial": nontrivial,
@@ -103,8 +110,12 @@ SPEC = {
                   "Table-level obligations (precedence <-> level, "
                   "associativity, spelling <-> tokens, operator glue, modifier spelling <-> keyword <-> parser arm) are decided over "
                   "the regenerated tables, and 63 hand-modelled functions are fingerprinted. The text of non-negative integer literals of every suffix is "
-                  "proved to read back through C10's lexer model (literal_roundtrip_int); enums, cbuffers, globals, template "
-                  "parameter lists and the text of float literals are covered by the correspondence run (and C10's cited theorems) only.",
+                  "proved to read back through C10's lexer model (literal_roundtrip_int); the text of float literals is C10's cited "
+                  "emit_value_exact / emit_whole_value_exact / emit_infinity_exact / emit_negative_exact over format_literal's arms as "
+                  "extracted on this run (literal_tables_as_modelled) - since fix 265a080 format_literal prints the digits of the "
+                  "double for a single whose shortest digits read back as its neighbour (0x15ae43fd, emit_f32_double_rounding_repaired; "
+                  "reproducers in the corpus, drawn by the literal stream) - plus the correspondence stream random-literals; enums, "
+                  "cbuffers, globals and template parameter lists are covered by the correspondence run only.",
     "rule": "requests = (context, expression tree) / statement tree / function or struct definition tree built directly as rssl_ast values, or random source "
             "modules; printed by the real rssl_formatter::format (HLSL), re-read by the real preprocess_fragment + prepare_tokens "
             "+ parse, locations stripped, ambiguous parse branches / ambiguous statements resolved with the type names of the "
@@ -125,7 +136,9 @@ SPEC = {
         "hand-written Model/Format.lean, Model/Parse.lean (first model), Model/FormatFull.lean, Model/ParseFull.lean (casts, "
         "sizeof, template arguments, types, declarators), Model/FormatStmt.lean, Model/ParseStmt.lean (statements, local "
         "definitions), Model/FormatDef.lean, Model/ParseDef.lean (functions, parameters, structs) - tied to the code by the fingerprints and the correspondence run",
-        "Rust f32/f64 Display (shortest round trip) and the lexer's literal reading (C10, whose literal theorems are cited)",
+        "Rust f32/f64 Display (shortest round trip; what it prints for a value is an input of C10's format_literal model, the "
+        "assumptions on it are stated as hypotheses of emit_value_exact) and the lexer's literal reading (C10, whose literal "
+        "theorems are cited); tools/gens/c10.py LitFormatTables (arms of format_literal incl. the f32_digits_round_twice guard)",
     ],
     "assumptions": [
         "a scoped identifier and a literal are single abstract tokens in the model",
